@@ -90,7 +90,10 @@ def setupTxn (s : State) (ops : List Op) : State :=
   let o := applyOps s.db s.nextId s.nextLock ops
   { s with db := applyAll s.db o.tracked, count := s.count + net o.tracked, nextId := o.nextId, nextLock := o.nextLock }
 
-def reset (fixed : Bool) (hdr : List String) : St :=
+/-- `variant=legacy` in a case header (C06: the harness found the pinned merge in the tree under test)
+or the `--legacy` argument select the model of the unrepaired `refetchAndMergeClosure` -/
+def reset (fixed0 : Bool) (hdr : List String) : St :=
+  let fixed := fixed0 && kv hdr "variant" != "legacy"
   let maxRetry := (kv hdr "maxretry").toNat?.getD 30
   let s0 : State := { maxRetry := maxRetry }
   let s := (listOf (kv hdr "init") ";").foldl (fun s t => setupTxn s (parseOps t)) s0
